@@ -1,5 +1,40 @@
-"""Exhaustive TLC runs (small constants) per property family. Filled in as the MC models grow."""
+"""Exhaustive TLC runs (small constants) of the specification, per property family."""
+import re
 import vlib
 
+LEDGER_INV = {
+    "C03": ["NoNegative", "SupplyOK"],
+    "C04": ["SupplyOK"],
+    "C05": ["NoUnauthorized"],
+    "C06": ["AtMostOnce", "PendingIffHeld"],
+    "C07": ["ConvTiming", "ValueOK"],
+    "C12": ["ConvTiming"],
+    "C13": ["AdmissionOK"],
+    "C17": ["ExecutedIffRel", "PendingIffHeld"],
+}
+
+FAMILIES = {
+    "ledger": {"module": "MC_Ledger", "quick": ["MC_Ledger_quick.cfg"], "thorough": ["MC_Ledger.cfg", "MC_Ledger_thorough.cfg"],
+               "deadlock": False},
+}
+
+
+def run_family(fam, tier, workers=16, timeout=2400):
+    f = FAMILIES[fam]
+    tot = {"states": 0, "transitions": 0, "configs": [], "module": f["module"]}
+    for cfg in f[tier]:
+        r = vlib.tlc(f["module"], cfg=cfg, workers=workers, timeout=timeout, deadlock=f.get("deadlock", True))
+        if not r.ok:
+            raise vlib.Infra("exhaustive model %s/%s failed: %s\n%s" % (f["module"], cfg, r.violation or r.error, r.out[-1500:]))
+        tot["states"] += r.distinct
+        tot["transitions"] += r.generated
+        tot["configs"].append({"cfg": cfg, "distinct": r.distinct, "generated": r.generated, "depth": r.depth, "wall_s": round(r.wall, 1)})
+    return tot
+
+
 def run(pid, tier):
+    if pid in LEDGER_INV or pid in ("C11", "C14", "C15", "C16"):
+        tot = run_family("ledger", tier)
+        tot["invariants_for_this_property"] = LEDGER_INV.get(pid, [])
+        return tot
     return None
